@@ -448,13 +448,13 @@ _check_spec_matches_contract("ter_layout", format_ter_nn.ensures)
 
 # ------------------------------------------------------------------------------------------------ write_pdb
 @spec
-def chunks_between(df, C, POS, TER, i):
-    """what stands between the atom lines of rows i and i + 1 (C = list of written chunks, every chunk one line with its newline):
-    nothing inside a chain; the chain's TER at a chain change inside a model; TER, ENDMDL and the next MODEL at a model change"""
-    return (implies(same_chain(df, i, i + 1), POS[i + 1] == POS[i] + 1)
-            and implies(same_model(df, i, i + 1) and not same_chain(df, i, i + 1), C[POS[i] + 1] == TER[i] + "\n" and POS[i + 1] == POS[i] + 2)
-            and implies(not same_model(df, i, i + 1), C[POS[i] + 1] == TER[i] + "\n" and C[POS[i] + 2] == "ENDMDL\n"
-                        and C[POS[i] + 3] == model_record(atom(df, i + 1).model) and POS[i + 1] == POS[i] + 4))
+def between(C, POS, TER, i, sc, sm, mr):
+    """what stands between the atom lines of rows i and i + 1 (C = list of written chunks, every chunk one line with its newline;
+    sc / sm: the two rows have the same chain / the same model; mr: the MODEL record of row i + 1): nothing inside a chain; the
+    chain's TER at a chain change inside a model; TER, ENDMDL and the next MODEL at a model change"""
+    return (implies(sc, POS[i + 1] == POS[i] + 1)
+            and implies(sm and not sc, C[POS[i] + 1] == TER[i] + "\n" and POS[i + 1] == POS[i] + 2)
+            and implies(not sm, C[POS[i] + 1] == TER[i] + "\n" and C[POS[i] + 2] == "ENDMDL\n" and C[POS[i] + 3] == mr and POS[i + 1] == POS[i] + 4))
 
 
 class write_pdb_c:
@@ -475,15 +475,18 @@ class write_pdb_c:
     raises = {"ValueError": "nrows(df.id) > 0 and not known_format(df)"}
     raises_exact = ["ValueError"]
     modifies = ["Buffer.chunks"]
-    callee_variants = {}
     locals = {"atom_data": "rec[AtomData]", "last_model_num": "opt[int]", "last_chain_id": "opt[str]",
               "last_res_info": "opt[tuple[int,str,str]]"}
     ghost_entry = ["let POS = empty('list[int]')", "let LINES = empty('list[str]')", "let TER = empty('dict[int,str]')",
-                   "let OUT = empty('list[str]')",
-                   # the two layout predicates get a name (explicit definitions, revealed only where a proof needs their bodies):
-                   # the bookkeeping obligations of the loop then carry no string constraints
+                   "let OUT = empty('list[str]')", "let CX = empty('list[str]')", "let C0 = empty('list[str]')",
+                   # the string-level predicates and terms get names (explicit definitions - conservative - whose bodies are
+                   # revealed, instance by instance, only where a proof needs them): the bookkeeping obligations of the loop
+                   # then carry no string constraints
                    "define opaque LOK(i, L:str) = atom_line_ok(atom(df, i), L)",
                    "define opaque TOK(i, L:str) = ter_line_ok(atom(df, i), L)",
+                   "define opaque SC(i) = same_chain(df, i, i + 1)",
+                   "define opaque SM(i) = same_model(df, i, i + 1)",
+                   "define opaque MR(i) = model_record(atom(df, i).model)",
                    # the quantified preconditions are set aside and instantiated for the current row at the top of the loop body
                    "mark REQ 0", "stash REQ"]
     ensures = [
@@ -522,44 +525,68 @@ class write_pdb_c:
         "implies(n > 0, not is_none(last_res_info) and some(last_res_info)[0] == atom(df, n - 1).resSeq "
         "and some(last_res_info)[1] == atom(df, n - 1).iCode and some(last_res_info)[2] == atom(df, n - 1).resName "
         "and last_serial == atom(df, n - 1).serial)",
-        "implies(n > 0, len(buffer.chunks) == POS[n - 1] + 1 and POS[0] == 1 and buffer.chunks[0] == model_record(atom(df, 0).model))",
+        "implies(n > 0, len(buffer.chunks) == POS[n - 1] + 1 and POS[0] == 1 and buffer.chunks[0] == MR(0))",
         "forall(lambda i: implies(0 <= i and i < n, 1 <= POS[i] and POS[i] < len(buffer.chunks) and buffer.chunks[POS[i]] == LINES[i] + '\\n'))",
         "forall(lambda i: implies(0 <= i and i < n, LOK(i, LINES[i])))",
-        "forall(lambda i: implies(0 <= i and i + 1 < n, POS[i] < POS[i + 1] and chunks_between(df, buffer.chunks, POS, TER, i)))",
-        "forall(lambda i: implies(0 <= i and i + 1 < n and not same_chain(df, i, i + 1), TOK(i, TER[i])))",
+        "forall(lambda i: implies(0 <= i and i + 1 < n, POS[i] < POS[i + 1] and between(buffer.chunks, POS, TER, i, SC(i), SM(i), MR(i + 1))))",
+        "forall(lambda i: implies(0 <= i and i + 1 < n and not SC(i), TOK(i, TER[i])))",
     ], "labels": {0: "bookkeeping", 1: "nothing-written-before-the-first-row", 2: "format-known", 3: "last-model-and-chain-are-the-previous-row's",
                   4: "last-residue-and-serial-are-the-previous-row's", 5: "buffer-ends-with-the-previous-atom-line-MODEL-first",
                   6: "atom-line-of-row-i-at-POS-i", 7: "atom-line-is-the-formatter-layout-of-the-row",
                   8: "between-consecutive-atoms-TER-ENDMDL-MODEL-as-chains-and-models-change", 9: "TER-is-the-layout-of-the-chain's-last-atom"}}}
-    _TER_BEFORE = ["assert n > 0 and last_serial == atom(df, n - 1).serial and last_chain_id == atom(df, n - 1).chainID "
-                   "and some(last_res_info)[0] == atom(df, n - 1).resSeq and some(last_res_info)[1] == atom(df, n - 1).iCode "
-                   "and some(last_res_info)[2] == atom(df, n - 1).resName", "mark T"]
-    _TER_AFTER = ["let TER = dstore(TER, n - 1, _format_pdb_ter_line_result)", "scoped keep 11 | reveal TOK(n - 1, TER[n - 1]) | assert TOK(n - 1, TER[n - 1])", "summarize T as TOK(n - 1, TER[n - 1])"]
+    _TER_BEFORE = ["replace last_serial by atom(df, n - 1).serial", "replace last_chain_id by atom(df, n - 1).chainID",
+                   "replace last_res_info by (atom(df, n - 1).resSeq, atom(df, n - 1).iCode, atom(df, n - 1).resName)", "mark T"]
+    _TER_AFTER = ["let TER = dstore(TER, n - 1, _format_pdb_ter_line_result)",
+                  "scoped keep 10 | reveal TOK(n - 1, TER[n - 1]) | assert TOK(n - 1, TER[n - 1])", "summarize T as TOK(n - 1, TER[n - 1])"]
     _TER_LABEL = "TER-is-the-layout-of-the-chain's-last-atom"
+    _ALL = "0 <= i and i < nrows(df.id)"
+    _PAIR = "0 <= i and i + 1 < nrows(df.id)"
+    _REV = "forall i | reveal SC(i) | reveal SM(i) | reveal MR(i + 1) | assert "
     ghost = [
         {"when": "before", "at": "atom_data = {}", "loop": 0, "label": "preconditions-for-this-row",
-         "do": ["mark B", "unstash REQ",
+         "do": ["let C0 = buffer.chunks", "mark B", "unstash REQ",
                 "assert implies(known_format(df), readable(df, n) and fits_any(atom(df, n)))",
                 "assert implies(known_format(df) and n > 0 and not same_chain(df, n - 1, n), ter_fits(atom(df, n - 1)) and fits_any(atom(df, n - 1)))",
-                "stash B"]},
+                "stash B", "reveal SC(n - 1)", "reveal SM(n - 1)", "reveal MR(n)"]},
         {"when": "after", "at": "for _, row in df.iterrows()", "label": "preconditions-for-the-last-row",
-         "do": ["mark E", "unstash REQ", "assert implies(nrows(df.id) > 0, ter_fits(atom(df, nrows(df.id) - 1)) and fits_any(atom(df, nrows(df.id) - 1)))", "stash E"]},
+         "do": ["let CX = buffer.chunks", "mark E", "unstash REQ",
+                "assert implies(nrows(df.id) > 0, ter_fits(atom(df, nrows(df.id) - 1)) and fits_any(atom(df, nrows(df.id) - 1)))", "stash E"]},
         {"when": "before", "at": "current_model_num = atom_data[", "loop": 0, "label": "atom-data-is-the-row's-atom",
-         "do": ["assert atom_data == atom(df, n)"]},
+         "do": ["replace atom_data by atom(df, n)"]},
         {"when": "before", "at": "pdb_line = _format_pdb_atom_line(atom_data)", "loop": 0, "label": "atom-line-is-the-formatter-layout-of-the-row",
-         "do": ["assert atom_data == atom(df, n)", "mark A"]},
+         "do": ["mark A"]},
         {"when": "after", "at": "pdb_line = _format_pdb_atom_line(atom_data)", "loop": 0, "label": "atom-line-is-the-formatter-layout-of-the-row",
-         "do": ["scoped keep 16 | reveal LOK(n, pdb_line) | assert LOK(n, pdb_line)", "summarize A as LOK(n, pdb_line)"]},
+         "do": ["scoped keep 15 | reveal LOK(n, pdb_line) | assert LOK(n, pdb_line)", "summarize A as LOK(n, pdb_line)"]},
         {"when": "after", "at": "buffer.write(pdb_line", "loop": 0, "label": "atom-line-position",
          "do": ["let POS = snoc(POS, len(buffer.chunks) - 1)", "let LINES = snoc(LINES, pdb_line)"]},
+        {"when": "before", "at": "last_serial = atom_data[", "loop": 0, "label": "earlier-chunks-kept",
+         "do": ["assert len(buffer.chunks) >= len(C0) and forall(lambda k: implies(0 <= k and k < len(C0), buffer.chunks[k] == C0[k]))"]},
+        {"when": "before", "at": "last_serial = atom_data[", "loop": 0, "label": "TER-after-a-chain-ENDMDL-MODEL-at-a-model-change-nothing-else-between-this-atom-and-the-previous",
+         "do": ["assert implies(n > 0, POS[n - 1] < POS[n] and between(buffer.chunks, POS, TER, n - 1, SC(n - 1), SM(n - 1), MR(n)))"]},
+        {"when": "before", "at": "last_serial = atom_data[", "loop": 0, "label": "TER-of-the-previous-chain-is-the-layout-of-its-last-atom",
+         "do": ["assert implies(n > 0 and not SC(n - 1), TOK(n - 1, TER[n - 1]))"]},
         {"when": "before", "at": "buffer.write(_format_pdb_ter_line(", "loop": 0, "label": _TER_LABEL, "do": _TER_BEFORE},
         {"when": "after", "at": "buffer.write(_format_pdb_ter_line(", "loop": 0, "label": _TER_LABEL, "do": _TER_AFTER},
         {"when": "before", "at": "buffer.write(_format_pdb_ter_line(", "loop": None, "label": _TER_LABEL, "do": _TER_BEFORE},
         {"when": "after", "at": "buffer.write(_format_pdb_ter_line(", "loop": None, "label": _TER_LABEL, "do": _TER_AFTER},
         {"when": "before", "at": "content = buffer.getvalue()", "label": "written-chunks",
          "do": ["let OUT = buffer.chunks",
-                "forall i | reveal LOK(i, LINES[i]) | assert implies(0 <= i and i < nrows(df.id), atom_line_ok(atom(df, i), LINES[i]))",
-                "forall i | reveal TOK(i, TER[i]) | assert implies(0 <= i and i < nrows(df.id) and ends_chain(df, i), ter_line_ok(atom(df, i), TER[i]))"]},
+                "assert len(OUT) >= len(CX) and forall(lambda k: implies(0 <= k and k < len(CX), OUT[k] == CX[k]))",
+                "reveal MR(0)"]},
+        {"when": "before", "at": "content = buffer.getvalue()", "label": "atom-line-is-the-formatter-layout-of-the-row",
+         "do": [f"forall i | assert implies({_ALL}, LOK(i, LINES[i]))",
+                f"forall i | keep 1 | reveal LOK(i, LINES[i]) | assert implies({_ALL}, atom_line_ok(atom(df, i), LINES[i]))"]},
+        {"when": "before", "at": "content = buffer.getvalue()", "label": "TER-after-the-last-atom-of-every-chain",
+         "do": [f"forall i | reveal SC(i) | assert implies({_ALL} and ends_chain(df, i), OUT[POS[i] + 1] == TER[i] + '\\n')",
+                f"forall i | assert implies({_ALL} and (i == nrows(df.id) - 1 or not SC(i)), TOK(i, TER[i]))",
+                f"forall i | keep 1 | reveal SC(i) | reveal TOK(i, TER[i]) | assert implies({_ALL} and ends_chain(df, i), ter_line_ok(atom(df, i), TER[i]))"]},
+        {"when": "before", "at": "content = buffer.getvalue()", "label": "ENDMDL-then-MODEL-at-every-model-change",
+         "do": [_REV + f"implies({_PAIR} and not same_model(df, i, i + 1), OUT[POS[i] + 2] == 'ENDMDL\\n' "
+                       "and OUT[POS[i] + 3] == model_record(atom(df, i + 1).model) and POS[i + 1] == POS[i] + 4)"]},
+        {"when": "before", "at": "content = buffer.getvalue()", "label": "nothing-between-atoms-of-one-chain",
+         "do": [_REV + f"implies({_PAIR} and same_chain(df, i, i + 1), POS[i + 1] == POS[i] + 1)"]},
+        {"when": "before", "at": "content = buffer.getvalue()", "label": "only-TER-between-chains-of-one-model",
+         "do": [_REV + f"implies({_PAIR} and same_model(df, i, i + 1) and not same_chain(df, i, i + 1), POS[i + 1] == POS[i] + 2)"]},
     ]
 
 
